@@ -1,10 +1,11 @@
 import JL.Generated.Fns
+import JL.Lemmas.TieAuto
 import JL.Tie.strict_eq
 /-! tie: `strict_ne`, as translated from the crate's current source, is the model's function - for every input -/
 namespace JL.Tie
 open JL
 
 theorem strict_ne (a b : Json) : Gen.strict_ne a b = JsOp.strictNe a b := by
-  simp [Gen.strict_ne, JsOp.strictNe, strict_eq]
+  tie_close [Gen.strict_ne, JsOp.strictNe, strict_eq]
 
 end JL.Tie
